@@ -31,6 +31,16 @@ fn gen_weights(rng: &mut Sm, small: bool) -> Vec<f64> {
         let k = rng.below(n as u64) as usize;
         w[k] = 1.0 + rng.unit();
     }
+    // weights that already sum to almost (but not exactly) one: normalisation must still happen
+    if rng.coin(0.25) {
+        let s: f64 = w.iter().sum();
+        for x in w.iter_mut() {
+            *x /= s;
+        }
+        let k = rng.below(n as u64) as usize;
+        let delta = rng.log_uniform(1e-12, 1e-2);
+        w[k] = (w[k] + if w[k] > delta && rng.coin(0.5) { -delta } else { delta }).max(0.0);
+    }
     // force zeros at the ends reasonably often (leading / trailing zero-probability categories)
     if n >= 2 && rng.coin(0.35) {
         w[0] = 0.0;
@@ -74,7 +84,7 @@ macro_rules! run_ty {
                 ks.dedup();
                 let any_pos = wts.iter().any(|x| *x > 0.0);
                 for (j, k) in ks.iter().enumerate() {
-                    let word = k << $shift;
+                    let word = (k << $shift) | (if j % 2 == 0 { (1u64 << $shift) - 1 } else { 0x5555_5555_5555_5555u64 & ((1u64 << $shift) - 1) });
                     let mut cat = Categorical::<$ty>::verif_with_rng(wts.clone(), crafted_rng(word));
                     let r: $ty = (*k as f64 / grid) as $ty;
                     let idx = cat.sample();
@@ -105,7 +115,8 @@ macro_rules! run_ty {
                         out.fail(&cid, "C16:not-normalised", "stored probabilities do not sum to one", n as u64, format!("sum={sum} weights={wts:?}"));
                     }
                     let case = format!("c16 {cid} {} {} ; {}", $tyname, $hex(r), wts.iter().map(|x| $hex(*x)).collect::<Vec<_>>().join(" "));
-                    let line = format!("{cid} {} # {idx} # {} {}", cat.probs.iter().map(|x| $hex(*x)).collect::<Vec<_>>().join(" "), $tok(lp), $tok(lp_oor));
+                    let all_lp = (0..n).map(|i| $tok(cat.logp(i))).collect::<Vec<_>>().join(" ");
+                    let line = format!("{cid} {} # {idx} # {} {} # {all_lp}", cat.probs.iter().map(|x| $hex(*x)).collect::<Vec<_>>().join(" "), $tok(lp), $tok(lp_oor));
                     out.case(case, line);
                     if *k == 0 { out.count("r_exactly_0"); }
                     if *k == (1u64 << $bits) - 1 { out.count("r_1_minus_ulp"); }
